@@ -210,6 +210,22 @@ pub open spec fn temp_extend(w: World, k: SV, threshold: u32, extend_to: u32) ->
 }
 
 
+// ---- soroban_sdk::Val: an opaque host value ----
+pub struct Val { pub v: Ghost<SV> }
+impl View for Val {
+    type V = SV;
+    open spec fn view(&self) -> SV { self.v@ }
+}
+impl ToSV for Val {
+    open spec fn sv(&self) -> SV { self.v@ }
+    open spec fn unsv(v: SV) -> Self { Val { v: Ghost(v) } }
+    proof fn lemma_rt(&self) {}
+}
+impl Clone for Val {
+    #[verifier::external_body]
+    fn clone(&self) -> (r: Self) ensures r == *self { unimplemented!() }
+}
+
 // ---- shared world transformers (ghost) ----
 pub open spec fn w_auth(w: World, a: Address) -> World { World { auths: w.auths.insert(a), ..w } }
 pub open spec fn w_event(w: World, ev: SV) -> World { World { events: w.events.push(ev), ..w } }
